@@ -39,6 +39,7 @@ LocalvarStartsAtCodeEnd(R) ==
 RefusalAtoms(g) ==
     LET a == (IF \E q \in DOMAIN g.methods : ExcEndsAtCodeEnd(g.methods[q].raw) THEN {"refused:exception end_pc = code_length"} ELSE {})
              \cup (IF \E q \in DOMAIN g.methods : LocalvarStartsAtCodeEnd(g.methods[q].raw) THEN {"refused:localvar_target start_pc = code_length"} ELSE {})
+             \cup (IF g.version = <<67, 65535>> THEN {"refused:class file version 67.65535"} ELSE {})
     IN IF a = {} THEN {"refused:other"} ELSE a
 
 Atoms(r) ==
